@@ -88,12 +88,22 @@ def impOf (tab : DtTable Float) (m p : Str) (j : String) : Option String :=
   | some jv => (dtImp tab m p jv).map normP
   | none => none
 
+/-- behaviour of the callbacks: `[cb, "ok"|"raises"|"unregister", [[kind, key, cb], …]]` — how a call ends and which
+registrations it removes through `unregister_callback` while running -/
 def parseBehave (j : Json) : R (List (Nat × Outcome)) := do
   (← arr j).mapM fun e => do
     match ← arr e with
-    | [cb, .str "ok"] => return (← cb.getNat?, .ok)
-    | [cb, .str "raises"] => return (← cb.getNat?, .raises)
-    | [cb, .str "unregister"] => return (← cb.getNat?, .unregister)
+    | [cb, how, rm] =>
+      let res : Result ← match how with
+        | .str "ok" => pure Result.ok
+        | .str "raises" => pure Result.raises
+        | .str "unregister" => pure Result.unregister
+        | _ => throw "bad behave entry"
+      let removes ← (← arr rm).mapM fun r => do
+        match ← arr r with
+        | [kind, key, c] => parseReg kind key c
+        | _ => throw "bad removal"
+      return (← cb.getNat?, ⟨removes, res⟩)
     | _ => throw "bad behave entry"
 
 def behaveOf (tab : List (Nat × Outcome)) (c : Call String) : Outcome := (dictGet tab c.reg.cb).getD .ok
